@@ -39,6 +39,8 @@ func genPair(t *rapid.T, cx *h.Ctx, disjointMembers bool, stats *gen.Stats) Pair
 	case 5:
 		// stats != nil marks the C01 caller: small shapes there
 		return genFloatPair(t, cx, disjointMembers, stats != nil)
+	case 8, 9:
+		return genConcurrentPair(t, disjointMembers)
 	}
 	k := rapid.IntRange(2, kmax).Draw(t, "k")
 	ca := gen.DrawComplex(t, k, [2]int{0, 0})
